@@ -342,6 +342,8 @@ func run(c *drv.Ctx) error {
 	c.Assume("keys, all, fields, keyrange and keyrangevalues promise no element order: compared as multisets (order differences are counted); query and keyvalues are compared in order; an empty list rendered as null equals []")
 	c.Assume("fieldtimes is defined for the in-memory head only: compared across restarts, not between head and store")
 	c.Assume("F_time 'does change' is asserted only when the driver's monotonic clock shows >= 2.5 s since the previous change of that field (RFC3339 stamps have 1 s resolution), or when the old stamp is the explicit 2001 stamp of the dedicated sub-test")
+	c.Extra("difference_classes", nj.Classes)
+	c.Extra("generic_key", "neuronjson:diff:<endpoint class>:<pair|restart-head|restart-store> = a difference no class predicate proves; neuronjson:rule:* = update-rule violations")
 	bin, err := c.Build("dvidw", "")
 	if err != nil {
 		return err
